@@ -434,6 +434,27 @@ def probabilities(ctx, P):
                     div = True
                 if isinstance(x, ast.Assign) and unparse(x.targets[0]) == "%s[%s]" % (dname, v) and unparse(x.value).replace(" ", "") == "%s[%s]/%s" % (dname, v, tn):
                     div = True
+    if not (okk and div) and rets:
+        # the same normalisation as a new dictionary: {k: v / tot for k, v in D.items()} (or {k: D[k] / tot for k in D}) with tot = sum(D.values())
+        rv = rets[-1].value
+        if isinstance(rv, ast.Name):
+            ds = [x for x in ast.walk(fn) if isinstance(x, ast.Assign) and unparse(x.targets[0]) == rv.id]
+            rv = ds[0].value if len(ds) == 1 else rv
+        if isinstance(rv, ast.DictComp) and len(rv.generators) == 1 and not rv.generators[0].ifs and isinstance(rv.value, ast.BinOp) and isinstance(rv.value.op, ast.Div) and isinstance(rv.value.right, ast.Name):
+            g = rv.generators[0]
+            tn = rv.value.right.id
+            src = None
+            if isinstance(g.iter, ast.Call) and isinstance(g.iter.func, ast.Attribute) and g.iter.func.attr == "items" and isinstance(g.target, ast.Tuple) and len(g.target.elts) == 2:
+                k_, v_ = [unparse(t) for t in g.target.elts]
+                if unparse(rv.key) == k_ and unparse(rv.value.left) == v_:
+                    src = unparse(g.iter.func.value)
+            elif isinstance(g.target, ast.Name) and unparse(rv.key) == g.target.id and unparse(rv.value.left) == "%s[%s]" % (unparse(g.iter), g.target.id):
+                src = unparse(g.iter)
+            tots = [x for x in ast.walk(fn) if isinstance(x, ast.Assign) and unparse(x.targets[0]) == tn]
+            if src is not None and len(tots) == 1 and unparse(tots[0].value).replace(" ", "") == "sum(%s.values())" % src \
+                    and not any(isinstance(p_, (ast.If, ast.For, ast.While)) for p_ in _anc(tots[0], fn)):
+                okk = div = True
+                dname = src
     ob.ok("StateTracker.state_probabilities", "tot = sum(%s.values()); each entry /= tot" % dname)
     if not (okk and div):
         ctx.violation(ob, "R5.probability-normalisation", "StateTracker.state_probabilities", "normalisation of %s" % dname, "not-normalised-by-total",
